@@ -95,6 +95,7 @@ type Interp struct {
 	choiceOrder []string
 	tags        []string
 	fmtLenient  bool
+	violCount   map[string]int
 }
 
 type Observation struct {
@@ -477,6 +478,18 @@ func (in *Interp) assert(c *Term, label string) {
 		return
 	}
 	// violated: fetch a model of the whole path condition with the negated assertion
+	in.violCount[label]++
+	if in.violCount[label] > in.cfg.ViolCap {
+		// enough witnesses for this label: count it, skip the model
+		in.violations = append(in.violations, Violation{Label: label, Kind: "assert", Model: nil})
+		if in.feasible(c) == "unsat" {
+			in.decisions = append(in.decisions, Decision{'A', 2})
+			panic(pathAbort{"assert violated on all completions"})
+		}
+		in.decisions = append(in.decisions, Decision{'A', 1})
+		in.addPC(c)
+		return
+	}
 	in.solver.Push()
 	in.solver.asserted = 0
 	in.syncSolver()
